@@ -2911,7 +2911,7 @@ class StateEngine(object):
             except ResultPathMatchFailure as e:  # Parallel state with no branches
                 handle_error(state, "States.ResultPathMatchFailure", str(e))
                 self.event_dispatcher.acknowledge(id)
-            except PathMatchFailure as e:
+            except (PathMatchFailure, Exception) as e:
                 handle_error(state, "States.Runtime", str(e))
                 self.event_dispatcher.acknowledge(id)
 
